@@ -29,7 +29,37 @@ mod pool_tracker;
 /// Verification hooks: crate-visible re-exports of items of the private `codec` /
 /// `pool_tracker` sub-modules.
 #[cfg(eigerco_lumina_verif)]
-pub(crate) mod verif_shim {}
+pub(crate) mod verif_shim {
+    use std::task::{Context, Poll};
+
+    use celestia_types::hash::Hash;
+
+    pub(crate) use super::Event;
+    pub(crate) use super::codec::{CodecError, RequestCodec, ResponseCodec};
+    pub(crate) use super::pool_tracker::{GetPoolError, PoolTracker};
+    use super::pool_tracker::EdsNotification;
+    use crate::store::Store;
+
+    /// `PoolTracker::poll` (which is `pub(super)`).
+    pub(crate) fn pool_tracker_poll<S: Store + 'static>(
+        tracker: &mut PoolTracker<S>,
+        cx: &mut Context<'_>,
+    ) -> Poll<Option<Event>> {
+        tracker.poll(cx)
+    }
+
+    /// `EdsNotification::deserialize_and_validate` (which is `pub(super)`).
+    pub(crate) fn parse_eds_notification(data: &[u8]) -> Result<(u64, Hash), String> {
+        EdsNotification::deserialize_and_validate(data)
+            .map(|n| (n.height, n.data_hash))
+            .map_err(|e| format!("{e:?}"))
+    }
+
+    /// The data hash of the empty square as the shrex module computes it.
+    pub(crate) fn empty_eds_data_hash() -> Hash {
+        *super::EMPTY_EDS_DATA_HASH
+    }
+}
 
 use crate::p2p::P2pError;
 use crate::p2p::shrex::client::Client;
